@@ -288,7 +288,7 @@ def check_operator(op, x, y):
 # ------------------------------------------------------------------------------------------------------------
 
 small_int = st.integers(-2, 9)
-integral = st.one_of(small_int, small_int, st.integers(-40, 400), st.sampled_from([0, 1, 2, 10, 16, 36, 23, 31, 100, 255, 65, 97, 128512, 2020, 10 ** 14]))
+integral = st.one_of(small_int, small_int, st.integers(-40, 400), st.sampled_from([0, 1, 2, 10, 16, 36, 23, 31, 100, 255, 65, 97, 128512, 2020, 10 ** 14, 10 ** 14 + 1, 250000000000007, -(10 ** 14 + 3), 72057594037929]))
 def _representable(n):
     # host ints beyond 2**53 are not numbers a script can hold (every script number is a double): mixed with a respelled small
     # number they expose float rounding of the big int, not a spelling difference
@@ -428,6 +428,22 @@ def call_strategy(draw, names):
     args = []
     if model is None:
         return name, [draw(anything) for _ in range(crnd.randint(0, 4))]
+    if name == 'datetimeNew' and crnd.random() < 0.12:
+        # huge time components that cancel each other (hour H with minute -60 H + m, ...): every component and every carry is an exactly
+        # representable number, the result is an ordinary datetime
+        big = draw(st.integers(-10 ** 12, 10 ** 12))
+        small = draw(st.integers(-90, 90))
+        kind = crnd.choice(['hour-minute', 'minute-second', 'second-millisecond', 'hour-second'])
+        h = mi = sec = ms = 0
+        if kind == 'hour-minute':
+            h, mi = big, -60 * big + small
+        elif kind == 'minute-second':
+            mi, sec = big, -60 * big + small
+        elif kind == 'second-millisecond':
+            sec, ms = big // 10, -1000 * (big // 10) + small
+        else:
+            h, sec = big // 10, -3600 * (big // 10) + small
+        return name, [draw(st.integers(1990, 2030)), draw(st.integers(1, 12)), draw(st.integers(1, 28)), h, mi, sec, ms]
     if name == 'dataAggregate' and crnd.random() < 0.2:
         # ten or more values just below 1e15 in one category: every value (and the mean) is an exactly representable number although the
         # running total passes 2**53 - so the total itself is not asked for (sum), only average / min / max / count
